@@ -31,6 +31,7 @@ import Chrono.Proofs.Rfc3339UniqueL
 import Chrono.Proofs.Rfc3339SlicesL
 import Chrono.Proofs.Rfc3339DataL
 import Chrono.Proofs.Rfc3339ExtraL
+import Chrono.Proofs.Rfc3339RelaxedL
 import Chrono.Extracted.Rfc3339
 
 namespace Chrono.Props.C10
@@ -431,6 +432,36 @@ example :
      b false 23 60 = false ∧ b false 0 0 = true ∧ b true 0 0 = true) ∧
     (OffValid 86340 ∧ OffValid (-86340) ∧ (86340 : Int) % 60 = 0 ∧ ¬ OffValid 86400) := by
   decide +kernel
+
+/-! ### Strict vs relaxed reader: the offset part
+
+`FromStr for DateTime<FixedOffset>` and the `%+` *parsing* item use `parse_rfc3339_relaxed`, which scans the
+offset with `timezone_offset(s.trim_start(), colon_or_space, true, false, true)`; the strict reader of this
+property uses `timezone_offset(s, |s| char(s, b':'), true, false, true)`. -/
+
+/-- **relaxed_offset_accepts_strict_partial.**  On the offset part the relaxed scanner accepts everything
+the strict one accepts, with the same offset and the same remainder.  (`_partial`: only the offset part.
+That the whole relaxed reader accepts every string the strict reader accepts, and a characterisation of
+what it accepts beyond — white space between items, one-digit fields, signed and longer years, no colon
+or several colons/spaces in the offset, `UTC` — is not proved; see audit/C10.md.) -/
+theorem relaxed_offset_accepts_strict_partial (s r : List Nat) (v : Int)
+    (h : Scan.timezone_offset s .charColon true false true = .ok (r, v)) :
+    Scan.timezone_offset s .colonOrSpace true false true = .ok (r, v) :=
+  Proofs.Rfc3339Relaxed.relaxed_offset_accepts_strict s r v h
+
+/-- the inclusion is strict, and the hypothesis is satisfiable: `+08:00` is read by both scanners as 28800;
+`+0800`, `+08 00`, `+08::00`, `+08: :00` are read as 28800 by the relaxed scanner and rejected by the strict
+one; `+08` (no minutes) and `+08:60` are rejected by both -/
+example :
+    (Scan.timezone_offset [43, 48, 56, 58, 48, 48] .charColon true false true).toOption = some ([], 28800) ∧
+    (Scan.timezone_offset [43, 48, 56, 58, 48, 48] .colonOrSpace true false true).toOption = some ([], 28800) ∧
+    (∀ s ∈ [[43, 48, 56, 48, 48], [43, 48, 56, 32, 48, 48], [43, 48, 56, 58, 58, 48, 48], [43, 48, 56, 58, 32, 58, 48, 48]],
+      (Scan.timezone_offset s .charColon true false true).toOption = none ∧
+      (Scan.timezone_offset s .colonOrSpace true false true).toOption = some ([], 28800)) ∧
+    (∀ s ∈ [[43, 48, 56], [43, 48, 56, 58, 54, 48]],
+      (Scan.timezone_offset s .charColon true false true).toOption = none ∧
+      (Scan.timezone_offset s .colonOrSpace true false true).toOption = none) := by
+  decide
 
 /-! ### The `%+` formatting item -/
 
